@@ -563,3 +563,5 @@ MANIFEST = {
     'technique': 'symbolic interpretation + term extraction against RFC terms + constant recomputation',
     'design_ref': 'DESIGN.md 3/C04',
 }
+MANIFEST['note'] += (' Also decided here (necessary conditions shared between properties or added after the independent '
+                     'change rounds, DESIGN.md 8.7): writers of self.dh and retry owner (from C01), algorithm structure carries the whole key (from C14).')
